@@ -54,6 +54,36 @@ def _raise_for_status_with_body(response: httpx.Response) -> None:
         raise
 
 
+async def _iter_sse_lines(response: httpx.Response) -> AsyncGenerator[str, None]:
+    """Yield the lines of an SSE body, splitting on CR / LF / CRLF only.
+
+    ``Response.aiter_lines()`` uses ``str.splitlines()``, which also breaks on
+    U+0085, U+2028, U+2029 and other Unicode separators that JSON payloads may
+    contain verbatim, so a ``data:`` line would be cut in the middle.
+    """
+    buffer = ""
+    async for text in response.aiter_text():
+        buffer += text
+        while True:
+            cut = -1
+            for i, ch in enumerate(buffer):
+                if ch == "\n" or ch == "\r":
+                    cut = i
+                    break
+            if cut < 0:
+                break
+            if buffer[cut] == "\r":
+                if cut + 1 == len(buffer):
+                    break  # a CRLF may be split across chunks: wait for more
+                skip = 2 if buffer[cut + 1] == "\n" else 1
+            else:
+                skip = 1
+            yield buffer[:cut]
+            buffer = buffer[cut + skip :]
+    if buffer:
+        yield buffer.rstrip("\r")
+
+
 @dataclass(frozen=True)
 class _QueuedEvent:
     sequence: int | Literal["now"]
@@ -387,7 +417,7 @@ class WorkflowClient:
 
                                 # Parse SSE stream: "id: N\ndata: {...}\n\n"
                                 current_id: str | None = None
-                                async for line in response.aiter_lines():
+                                async for line in _iter_sse_lines(response):
                                     stripped = line.strip()
                                     if not stripped:
                                         # Empty line = end of SSE event
